@@ -37,7 +37,7 @@ WRAPS = [
     ("<details>%s</details>", ["<summary>s</summary>", "<p>x</p>", "t"]),
 ]
 NW = len(WRAPS)
-SEPS = ["", " ", "\n", "<!--s-->"]
+SEPS = ["", "<!--s-->", " ", "\n"]
 HEADS = ["<title>t</title>", "<meta charset=\"utf-8\"><title>t</title>", "<title>t</title><link rel=\"stylesheet\" href=\"x\"><style>a{}</style><script>1</script>", "<title>t</title><base href=\"/\"><meta name=\"a\" content=\"b\">"]
 KF_SOLIDUS = findings.active("C08-unquoted-value-before-trailing-solidus")
 KF_BOOL = findings.active("C08-boolean-attribute-value-dropped")
@@ -62,7 +62,7 @@ def _trees(doc, walker_dom, opts):
 
 def omission(wi: int, a: int, b: int, si: int, hi: int, tail: int, walker_dom: bool) -> bool:
     """
-    pre: wi == WI and 0 <= a < NITEMS and 0 <= b < NITEMS and 0 <= si < len(SEPS) and 0 <= hi < P("nheads", len(HEADS)) and 0 <= tail <= 3
+    pre: wi == WI and 0 <= a < NITEMS and 0 <= b < NITEMS and 0 <= si < P("nseps", len(SEPS)) and 0 <= hi < P("nheads", len(HEADS)) and 0 <= tail <= 3
     pre: (P("wdom", None) is None or walker_dom == P("wdom", None)) and (P("tails", None) is None or tail in P("tails", None))
     post: _
     """
